@@ -268,10 +268,12 @@ macro_rules! cache_hist {
                 step(&mut s, &mut model, 255);
                 i += 1;
             }
+            let flushes0 = { let g = arc.read().unwrap(); g.inner().flushes };
             let (r, _) = split(s.flush());
             assert!(r.is_some(), "C13: final flush failed without a fault");
             {
                 let mut g = arc.write().unwrap();
+                assert!(g.inner().flushes > flushes0, "C13: Stream::flush returned Ok without flushing the underlying file (data written back earlier by a seek / refill / set_len is not durable until the file itself is flushed)");
                 let e_len = dacc::dir_entries(macc::directory(&g))[1].stream_len;
                 assert!(e_len == model.len as u64, "C02/C13: after flush the stored length differs from the handle's length");
                 let mut back = [0u8; CAP];
@@ -475,10 +477,12 @@ macro_rules! cache_seq {
             let arc = Arc::new(RwLock::new(tiny_minialloc()));
             let mut s = Stream::new(&arc, 1, $maxbuf);
             $( op_c(&mut s, &mut model, $op); )*
+            let flushes0 = { let g = arc.read().unwrap(); g.inner().flushes };
             let (r, _) = split(s.flush());
             assert!(r.is_some(), "C13: final flush failed without a fault");
             {
                 let mut g = arc.write().unwrap();
+                assert!(g.inner().flushes > flushes0, "C13: Stream::flush returned Ok without flushing the underlying file (data written back earlier by a seek / refill / set_len is not durable until the file itself is flushed)");
                 let e_len = dacc::dir_entries(macc::directory(&g))[1].stream_len;
                 assert!(e_len == model.len as u64, "C02/C13: after flush the stored length differs from the handle's length");
                 let mut back = [0u8; CAP];
